@@ -37,6 +37,7 @@ LEVEL_TEXT = ('Explicit-state model checking of the real objects: all operation 
 LEVEL_NOTE = ('trusted: the functional reference pool (mc/props/c08.py model functions over mc/ref/cell.py); canonical state keeps every observable field '
               '(no symmetry reduction, so no soundness argument is needed for the abstraction)')
 TECHNIQUE = 'explicit-state BFS over operation histories on the real objects with a lock-step functional reference model and a memoised observer battery'
+RULE += " Parse battery: on the first arrival at every canonical state the library's parsers (VmStack, MessageAny, StateInit, CurrencyCollection, HashMap.parse, load_dict, TL deserialize) run on fixed immutable inputs written by the reference encoders; every result must equal the first one obtained in the process."
 ASSUMPTIONS = ['histories longer than the depth bound and pools larger than 6 objects are not explored']
 NOT_ASSERTED = ['direct mutation of a cell\'s own bits/refs containers from outside (an attack on the value, not a use of it)',
                 'mutation of the caller\'s array after it was handed to the Cell constructor']
